@@ -237,7 +237,9 @@ pub fn case_seek_storm(out: &mut CaseOut, seed: u64, idx: u64, prop: &str) {
     // missing keys consult a second, deeper file). Templates: nested ranges; a narrow deep file at
     // one edge under a wide middle file under a narrow top file elsewhere; random ranges.
     let n = pool.len();
-    let template = [0u64, 1, 3, 2][(idx / 4 % 4) as usize];
+    let template = [0u64, 1, 3, 2, 4][(idx / 4 % 5) as usize];
+    // (layer after whose flush a sub-range is compacted, range)
+    let mut compact_after: Option<(usize, usize, usize)> = None;
     let ranges: Vec<(usize, usize, usize)> = match template {
         0 => {
             let mut v = vec![(0, n - 1, 1)];
@@ -259,6 +261,14 @@ pub fn case_seek_storm(out: &mut CaseOut, seed: u64, idx: u64, prop: &str) {
             let top_lo = rng.range(edge as u64 + 6, (n - 12) as u64) as usize;
             vec![(0, edge, 1), (1, n - 2, 2), (top_lo, top_lo + rng.range(5, 9) as usize, rng.range(2, 3) as usize)]
         }
+        4 => {
+            // an undercut: the first flush lands deep, the second above it, the third stays at
+            // level 0; the second is then pushed down by a manual compaction of a sub-range that
+            // the third does not touch, so level 1 is empty again; the last flush starts below the
+            // level-0 file's range and ends inside it (they share keys): it must stay at level 0
+            compact_after = Some((2, 15, 20));
+            vec![(10, 20, 1), (15, 30, 1), (25, n - 1, 1), (rng.range(2, 8) as usize, rng.range(26, 30) as usize, 1)]
+        }
         3 => {
             // a staircase: each flush overlaps only the previous one, so the first lands deep, the
             // second above it and the last two both stay at level 0, overlapping each other while
@@ -279,6 +289,7 @@ pub fn case_seek_storm(out: &mut CaseOut, seed: u64, idx: u64, prop: &str) {
     };
     let layers = ranges.len();
     let mut counter = 0u64;
+    let mut layer_index = 0usize;
     for (lo, hi, step) in &ranges {
         for k in pool[*lo..=*hi].iter().step_by(*step) {
             counter += 1;
@@ -289,6 +300,13 @@ pub fn case_seek_storm(out: &mut CaseOut, seed: u64, idx: u64, prop: &str) {
         }
         // pure flush (a compact_range over a range that holds no keys)
         sess.compact(Some(b"~~~~"), Some(b"~~~~"));
+        layer_index += 1;
+        if let Some((after, a, b)) = compact_after {
+            if after + 1 == layer_index {
+                let (a, b) = (pool[a].clone(), pool[b].clone());
+                sess.compact(Some(&a), Some(&b));
+            }
+        }
     }
     sess.wait_quiescent(Duration::from_secs(10));
     let shape_before: Vec<String> = sess.db().verif_files().iter().map(|f| format!("L{}#{}[{}..{}]", f.level, f.number, show(&f.smallest.user_key), show(&f.largest.user_key))).collect();
